@@ -30,16 +30,17 @@ ASSUMPTIONS = [
     "no worker is killed from outside; task bodies are pure functions of the id",
     "the 1800 s watchdog is replaced by hang detection: parent can only poll and nobody else can move = violation",
 ]
-BUDGET = {"quick": 75, "thorough": 1500}
+BUDGET = {"quick": 90, "thorough": 2400}
 KEEP_ORDER = False
 
 
 def bound_text(tier):
     if tier == "quick":
-        return ("full interleavings (state-deduplicated, unbounded preemptions): n<=2,pool<=2 core grid; "
-                "preemption bound 2: n<=4,pool<=3 grid")
-    return ("full interleavings: n<=3,pool<=2 core grid (+ n=3,pool=3 where the budget allows); "
-            "preemption bound 3: n<=5,pool<=3,quota<=3 grid")
+        return ("full interleavings (state-deduplicated, unbounded preemptions): n<=2, pool<=2, max_tasks in {1,25}, with/without a "
+                "raising id, tolerate 0/1, api irun/run; preemption bound 2 (state-deduplicated): n in {3,4}, pool 2, max_tasks in "
+                "{1,2,25}; preemption bound 1: pool 3 (n 3..4) and n=5; E4: TLC model + edge-cover conformance replay for n=2,pool=2,quota=1")
+    return ("full interleavings: n<=2 complete grid and n=3, pool=2, max_tasks in {1,2,25}; preemption bound 3: n<=5, pool 2; bound 2: "
+            "pool 3; bound 1: n<=6, pool<=4; E4 x 12 configurations (conformance replay up to n=3,pool=3); real-multiprocessing assumption tests")
 
 
 def setup():
@@ -322,51 +323,60 @@ def describe(ex):
 
 # ---------------------------------------------------------------------------------------------------
 def cfgs(tier):
+    """configurations per tier; sized from measured costs (executions are ~1-3 ms each; a loaded machine is ~3x slower)"""
     out = []
 
     def add(mode, n, pool, mt, raising=(), tolerate=1, **kw):
         c = {"mode": mode, "n": n, "pool": pool, "max_tasks": mt, "raising": list(raising), "tolerate": tolerate}
         c.update(kw)
         out.append(c)
-    # --- complete interleavings -----------------------------------------------------------------
-    nmax = 2 if tier == "quick" else 3
-    for n in range(0, nmax + 1):
-        for pool in (1, 2):
-            for mt in (1, 2, 25):
-                for raising in [()] + [(i,) for i in range(n)]:
-                    for tol in (1, 0):
-                        if tol == 0 and not raising and mt != 25:
-                            continue
-                        if tier == "quick" and n == 2 and len(raising) and raising[0] != 0 and mt == 2:
-                            continue
-                        add(("full",), n, pool, mt, raising, tol)
-    add(("full",), 2, 2, 25, api="run")
-    add(("full",), 2, 2, 1, raising=(1,), api="run")
-    if tier == "thorough":
-        add(("full",), 3, 3, 25)
-        add(("full",), 3, 3, 1)
-        add(("full",), 3, 2, 2, callback=1)
-        add(("full",), 4, 2, 25)
-        add(("full",), 4, 2, 2)
-    # --- preemption bounded ---------------------------------------------------------------------
-    k = 2 if tier == "quick" else 3
-    grid = []
+    full, pb = ("full",), (lambda k: ("pb", k))
+    # in-process path and empty input (n <= 1 or pool == 1): trivial but part of the claim
+    for n, pool in ((0, 2), (1, 2), (2, 1), (3, 1)):
+        add(full, n, pool, 25)
+        add(full, n, pool, 1, raising=(0,) if n else ())
     if tier == "quick":
-        grid = [(3, 2, 25), (3, 2, 1), (3, 2, 2), (4, 2, 25), (4, 3, 2), (4, 2, 3), (3, 3, 1)]
-    else:
-        for n in (3, 4, 5):
-            for pool in (2, 3):
-                for mt in (1, 2, 3, 25):
-                    grid.append((n, pool, mt))
-    for (n, pool, mt) in grid:
-        add(("pb", k), n, pool, mt)
-        add(("pb", k), n, pool, mt, raising=(1,))
-        add(("pb", k), n, pool, mt, raising=(0, n - 1), tolerate=1)
-        add(("pb", k), n, pool, mt, raising=(1,), tolerate=0)
-    add(("pb", k), 3, 2, 25, callback=1)
-    add(("pb", k), 3, 2, 2, in_thread_callback=1, callback=1)
-    add(("pb", k), 4, 2, 25, api="run")
-    add(("pb", k), 4, 2, 2, raising=(2,), api="run")
+        for mt in (1, 25):
+            add(full, 2, 2, mt)
+            add(full, 2, 2, mt, raising=(0,))
+            add(full, 2, 2, mt, raising=(1,), tolerate=0)
+        add(full, 2, 2, 25, api="run")
+        for (n, pool, mt) in ((3, 2, 25), (3, 2, 1), (4, 2, 2), (4, 2, 25)):
+            add(pb(2), n, pool, mt)
+            add(pb(2), n, pool, mt, raising=(1,))
+            add(pb(2), n, pool, mt, raising=(1,), tolerate=0)
+        add(pb(2), 3, 2, 2, in_thread_callback=1, callback=1)
+        add(pb(2), 4, 2, 2, raising=(2,), api="run")
+        for (n, pool, mt) in ((3, 3, 1), (4, 3, 2), (3, 3, 25), (5, 2, 2)):
+            add(pb(1), n, pool, mt)
+        return out
+    # ---- thorough ---------------------------------------------------------------------------------
+    for mt in (1, 2, 25):
+        for raising in [()] + [(i,) for i in range(2)]:
+            for tol in (1, 0):
+                if tol == 0 and not raising:
+                    continue
+                add(full, 2, 2, mt, raising, tol)
+    add(full, 2, 2, 25, api="run")
+    add(full, 2, 2, 1, raising=(1,), api="run")
+    for mt in (1, 2, 25):
+        add(full, 3, 2, mt)
+        add(full, 3, 2, mt, raising=(1,))
+    add(full, 3, 2, 2, raising=(2,), tolerate=0)
+    add(full, 3, 2, 2, callback=1)
+    for (n, pool, mt) in ((3, 2, 25), (3, 2, 1), (4, 2, 2), (4, 2, 25), (4, 2, 3), (5, 2, 2)):
+        add(pb(3), n, pool, mt)
+        add(pb(3), n, pool, mt, raising=(1,))
+        add(pb(3), n, pool, mt, raising=(0, n - 1))
+        add(pb(3), n, pool, mt, raising=(1,), tolerate=0)
+    for (n, pool, mt) in ((3, 3, 1), (4, 3, 2), (3, 3, 25)):
+        add(pb(2), n, pool, mt)
+        add(pb(2), n, pool, mt, raising=(1,))
+    for (n, pool, mt) in ((5, 3, 2), (4, 4, 2), (5, 3, 3), (6, 3, 2), (6, 2, 3)):
+        add(pb(1), n, pool, mt)
+    add(pb(3), 3, 2, 2, in_thread_callback=1, callback=1)
+    add(pb(3), 4, 2, 25, api="run")
+    add(pb(3), 4, 2, 2, raising=(2,), api="run")
     return out
 
 
@@ -383,7 +393,15 @@ def blocks(tier, seed):
     bl += [{"mode": ("e4",), "n": n, "pool": ps, "max_tasks": q, "conform": cf, "raising": [], "tolerate": 1}
            for (n, ps, q, cf) in e4_cfgs(tier)]
     # heavy blocks first for load balancing
-    bl.sort(key=lambda c: -(c["n"] * 10 + c["pool"] * 3 + (5 if c["mode"][0] == "full" else 0) + (100 if c["mode"][0] == "e4" else 0)))
+    def cost(c):
+        m = c["mode"]
+        base = (c["n"] + 1) ** 3 * (8 ** (c["pool"] - 2)) if c["pool"] >= 2 else 1
+        if m[0] == "full":
+            return base * 4 * (2 if c["max_tasks"] < 25 else 1)
+        if m[0] == "e4":
+            return base * 6
+        return base * (0.3, 1, 3, 9)[m[1]]
+    bl.sort(key=lambda c: -cost(c))
     return bl
 
 
